@@ -239,6 +239,7 @@ def run(rep):
                         "missing functions, declarations cut out, all calls removed}) against goderive with the old file, from scratch "
                         "and on the old sources; invocations over 2-5 packages (import chains through unnamed packages without derive calls, "
                         "path order against import order, every derived.gen.go absent) run twice, against G/Order + G/Reload.invocation; "
+                        "two-package histories in which one package loses every source file and keeps its derived.gen.go (must be removed); "
                         "distinct also counts the scenarios where the model predicts a difference from scratch")
     rep.assumptions += ["regen tie: the plugin table `gen` of the model is measured on one-call packages (a plugin's answer depends only on "
                         "its argument types); no two types of the scenario universe are assignable to each other; the model has no helper "
